@@ -53,11 +53,11 @@ def letters_cfg(letters):
 
 
 def kw_cfg():
-    """Keyword + synonym configuration: WORD (two different values, one of them the keyword's spelling in
-    another case), keyword ``if`` -> IF, PLUS -> '+'."""
-    return TokCfg("kw", r"(?P<SPACE>\s+)|(?P<WORD>[a-zA-Z]+)|(?P<PLUS>\+)",
+    """Keyword + synonym configuration: regex group W is the token WORD (synonym), two different WORD
+    values (one of them the keyword's spelling in another case), keyword ``if`` -> IF, PLUS -> '+'."""
+    return TokCfg("kw", r"(?P<SPACE>\s+)|(?P<W>[a-zA-Z]+)|(?P<PLUS>\+)",
                   [("WORD", "u"), ("WORD", "If"), ("IF", "if"), ("+", "+")],
-                  synonyms={"PLUS": "+"}, keywords={("WORD", "if"): "IF"})
+                  synonyms={"W": "WORD", "PLUS": "+"}, keywords={("WORD", "if"): "IF"})
 
 
 def cfg_from_key(key):
@@ -507,7 +507,7 @@ def family_follow2(terms, rich_slice=None, rich="E", second="A", helper="N"):
                 yield ((rich, el), (second, al), (helper, nl))
 
 
-def family_prefix(terms, nts=("E", "A"), full=True):
+def family_prefix(terms, nts=("E", "A"), full=True, min_group=2):
     """C01 directed family for factorization: alternative lists of E built from a common prefix.
 
     prefix  : length 1-3, first symbol a terminal or the non-terminal A
@@ -516,6 +516,7 @@ def family_prefix(terms, nts=("E", "A"), full=True):
               (nullable) remainder; an unrelated alternative before / after the group.
     A       : a few helper definitions (terminal, nullable, two-token).
     full=False (quick tier): the first two definitions of A and three of the four placements only.
+    min_group: smallest number of remainders (C02 uses the groups around the "more than 5" rule only).
     """
     t0, t1 = terms[0], terms[1]
     e, a = nts
@@ -528,7 +529,7 @@ def family_prefix(terms, nts=("E", "A"), full=True):
         a_defs = a_defs[:2]
         extras = extras[:3]
     for pre in prefixes:
-        for k in range(2, 8):
+        for k in range(max(2, min_group), 8):
             for rems in itertools.combinations(rem_menu, k):
                 if k >= 4 and rems[0] != ():       # larger groups: only the ones with a nullable remainder
                     continue
@@ -546,6 +547,30 @@ def family_prefix(terms, nts=("E", "A"), full=True):
                             alts = group + [ex[1]]
                         if len(set(alts)) != len(alts):
                             continue
+                        for ad in a_defs:
+                            yield ((e, tuple(alts)), (a, ad))
+
+
+def family_wide(terms, nts=("E", "A")):
+    """Directed family around the "more than 5 alternatives" rule of smart factorization with *distinct*
+    first symbols of the remainders, so that the factorized grammar is conflict-free in both modes:
+    E -> pre c1 | pre c2 | ... | pre ck  (k = 4..7, optionally an empty remainder, an unrelated alternative
+    before / after), pre of length 1-2 starting with a terminal or with A.  Needs >= 9 terminals."""
+    e, a = nts
+    p, q, z = terms[0], terms[1], terms[2]
+    cs = terms[3:]
+    assert len(cs) >= 6
+    pres = [(p,), (p, q), (a,), (p, a), (a, p)]
+    a_defs = [((q,),), ((), (q,))]
+    for pre in pres:
+        for k in range(4, 8):
+            for with_eps in (False, True):
+                rems = ([()] if with_eps else []) + [(c,) for c in cs[:k - (1 if with_eps else 0)]]
+                for rr in (rems, list(reversed(rems))):
+                    group = [pre + r for r in rr]
+                    for extra in (None, "before", "after"):
+                        alts = group if extra is None else ([(z, z)] + group if extra == "before"
+                                                            else group + [(z, z)])
                         for ad in a_defs:
                             yield ((e, tuple(alts)), (a, ad))
 
@@ -573,18 +598,20 @@ def family_split(terms, nts=("E", "A")):
                     yield ((e, alts), (a, ad))
 
 
-def family_hidden(names, terms):
+def family_hidden(names, terms, max_prefix=2):
     """C03 directed family: a (possibly) recursive symbol behind nullable prefixes, over a given
     assignment ``names`` = (R, S, N, M) of names to roles.
 
-    R -> p1 T t1 [| y]      p1 in {N,M}^<=2, T in {R,S}, t1 in {(), (x,)}
+    R -> p1 T t1 [| y]      p1 in {N,M}^<=max_prefix, T in {R,S}, t1 in {(), (x,)}
     S -> p2 R t2  or  x      p2 in {N,M}^<=1
     N in {eps; eps|x; x|eps}         M in {eps; eps|x; x|eps; x}
     """
     r, s, n, m = names
     x = terms[0]
     y = terms[1] if len(terms) > 1 else terms[0]
-    p1s = [()] + [(u,) for u in (n, m)] + list(itertools.product((n, m), repeat=2))
+    p1s = [()]
+    for k in range(1, max_prefix + 1):
+        p1s += list(itertools.product((n, m), repeat=k))
     p2s = [(), (n,), (m,)]
     n_defs = [((),), ((), (x,)), ((x,), ())]
     m_defs = n_defs + [((x,),)]
